@@ -7,6 +7,9 @@ warnings.filterwarnings("ignore")
 from s_knnmodel import Proxy
 
 
+BOOST = int(os.environ.get("VERIF_BOOST", "1"))
+
+
 def run(rng, tier, res=None):
     load_opfython()
     import opfython.math.general as G
@@ -14,7 +17,7 @@ def run(rng, tier, res=None):
     import opfython.models.supervised as S
     res = res or Result("learn")
     lines, obs, metas = [], [], []
-    ncases = 60 if tier == "quick" else 700
+    ncases = (60 * BOOST) if tier == "quick" else 700
 
     def viol(msgs, meta):
         for m in (msgs if isinstance(msgs, list) else [msgs])[:3]:
@@ -134,6 +137,10 @@ def run(rng, tier, res=None):
             res.hit("swap_with_errors" if errs else "swap_no_errors")
             if any(e["proto"][j] for j in dr):
                 res.hit("swap_drew_a_prototype")
+        import struct as _st
+        line = f"iters {iters} {len(accs)} {ints(_st.unpack('<Q', _st.pack('<d', float(a)))[0] for a in accs)}"
+        lines.append(line); obs.append(str(len(accs))); metas.append(meta)
+        res.add_case(line, nontrivial=len(accs) >= 2)
         line = f"best {enc(-1.0)} {len(accs)} {ints(enc(a) for a in accs)}"
         lines.append(line); obs.append(str(best)); metas.append(meta)
         res.add_case(line, nontrivial=len(accs) >= 2)
